@@ -275,8 +275,19 @@ func val(v string, err error) string {
 	return v
 }
 
-// readState renders every read of a state view over the universe.
-func readState(u *gen.Universe, r core.StateReader) map[string]string {
+// pair is one storage slot of one contract.
+type pair struct{ a, k felt.Felt }
+
+// scope selects what a state view is asked: class hash and nonce of every address always; the listed storage
+// slots; class definitions / compiled class hashes only when classes is set (the pruner never touches them,
+// and decoding them is the most expensive read).
+type scope struct {
+	pairs   []pair
+	classes bool
+}
+
+// readState renders the reads of a state view selected by sc.
+func readState(u *gen.Universe, r core.StateReader, sc scope) map[string]string {
 	o := map[string]string{}
 	for _, a := range u.AllAddrs() {
 		a := a
@@ -284,11 +295,14 @@ func readState(u *gen.Universe, r core.StateReader) map[string]string {
 		o["classhash/"+a.String()] = val(ch.String(), err)
 		nn, err := r.ContractNonce(&a)
 		o["nonce/"+a.String()] = val(nn.String(), err)
-		for _, k := range u.Keys {
-			k := k
-			v, err := r.ContractStorage(&a, &k)
-			o["storage/"+a.String()+"/"+k.String()] = val(v.String(), err)
-		}
+	}
+	for _, p := range sc.pairs {
+		p := p
+		v, err := r.ContractStorage(&p.a, &p.k)
+		o["storage/"+p.a.String()+"/"+p.k.String()] = val(v.String(), err)
+	}
+	if !sc.classes {
+		return o
 	}
 	classes := []felt.Felt{}
 	for _, s := range u.Sierra {
@@ -312,8 +326,8 @@ func readState(u *gen.Universe, r core.StateReader) map[string]string {
 	return o
 }
 
-// refState renders what the abstract state says for contracts (class hash, nonce, storage).
-func refState(u *gen.Universe, st *ref.State) map[string]string {
+// refState renders what the abstract state says for existing contracts (class hash, nonce, selected slots).
+func refState(u *gen.Universe, st *ref.State, sc scope) map[string]string {
 	o := map[string]string{}
 	for _, a := range u.AllAddrs() {
 		ct, ok := st.Contracts[a]
@@ -322,9 +336,11 @@ func refState(u *gen.Universe, st *ref.State) map[string]string {
 		}
 		o["classhash/"+a.String()] = ct.ClassHash.String()
 		o["nonce/"+a.String()] = ct.Nonce.String()
-		for _, k := range u.Keys {
-			v := ct.Storage[k]
-			o["storage/"+a.String()+"/"+k.String()] = v.String()
+	}
+	for _, p := range sc.pairs {
+		if ct, ok := st.Contracts[p.a]; ok {
+			v := ct.Storage[p.k]
+			o["storage/"+p.a.String()+"/"+p.k.String()] = v.String()
 		}
 	}
 	return o
@@ -367,6 +383,9 @@ type machine struct {
 	twinVer  int // bumped whenever the twin changes
 	twinAt   int
 	twinObsC node.Obs
+
+	written    []pair // every slot ever written by a generated block (in order of first write)
+	writtenSet map[pair]bool
 
 	numOfHash map[felt.Felt]uint64 // canonical blocks only
 	numOfTx   map[felt.Felt]uint64
@@ -533,6 +552,12 @@ func (m *machine) used(what string) {
 
 func (m *machine) addBlock(b *gen.Block) {
 	m.ids.AddBlock(b)
+	for _, p := range diffPairs(b) {
+		if !m.writtenSet[p] {
+			m.writtenSet[p] = true
+			m.written = append(m.written, p)
+		}
+	}
 	m.numOfHash[*b.B.Hash] = b.Num()
 	for _, tx := range b.B.Transactions {
 		m.numOfTx[*tx.Hash()] = b.Num()
@@ -836,16 +861,41 @@ func (m *machine) openView(n *node.Node, v view) (core.StateReader, error) {
 	}
 }
 
+// scopeFor: every slot ever written by a generated block (plus one never-written slot); class reads for
+// one view in three.
+func (m *machine) scopeFor(v view) scope {
+	sc := scope{pairs: append([]pair{}, m.written...)}
+	sc.pairs = append(sc.pairs, pair{m.u.Addrs[0], gen.F(0xdead0001)})
+	sc.classes = rapid.IntRange(0, 2).Draw(m.rt, "classReads") == 0
+	return sc
+}
+
+// fixedScope is the scope without draws, for copy-vs-copy summaries.
+func (m *machine) fixedScope() scope { return scope{pairs: append([]pair{}, m.written...)} }
+
+// diffPairs lists the storage slots a block writes, sorted.
+func diffPairs(b *gen.Block) []pair {
+	var out []pair
+	for a, kv := range b.SU.StateDiff.StorageDiffs {
+		for k := range kv {
+			out = append(out, pair{a, k})
+		}
+	}
+	sort.Slice(out, func(i, j int) bool {
+		if c := out[i].a.Cmp(&out[j].a); c != 0 {
+			return c < 0
+		}
+		return out[i].k.Cmp(&out[j].k) < 0
+	})
+	return out
+}
+
 // compareStateView: must == the view is required to answer exactly (blocks >= floor-1, head); otherwise it may
 // fail, but whatever it answers must be the twin's answer.
 func (m *machine) compareStateView(where string, s *session, v view, must bool, f uint64) {
 	defer prof("stateview", wall())
-	rp, errP := m.openView(s.n, v)
-	rtw, errT := m.openView(m.twin, v)
-	if errT != nil {
-		stats.HarnessError("twin cannot open state %s %d: %v", v.by, v.num, errT)
-	}
 	desc := fmt.Sprintf("%s: state by %s at block %d (floor %d)", where, v.by, v.num, f)
+	rp, errP := m.openView(s.n, v)
 	if errP != nil {
 		if must {
 			m.violation("state-unavailable", "%s cannot be opened: %v", desc, errP)
@@ -853,16 +903,26 @@ func (m *machine) compareStateView(where string, s *session, v view, must bool, 
 		m.c.Info("below-floor-state-refused")
 		return
 	}
-	gp, gt := readState(m.u, rp), readState(m.u, rtw)
-	for _, k := range sortedKeys(gt) {
-		if gp[k] == gt[k] {
-			continue
+	sc := m.scopeFor(v)
+	gp := readState(m.u, rp, sc)
+	// the unpruned twin is the oracle for every answer; the abstract state (ref.State) additionally for the
+	// views that must answer
+	{
+		rtw, errT := m.openView(m.twin, v)
+		if errT != nil {
+			stats.HarnessError("twin cannot open state %s %d: %v", v.by, v.num, errT)
 		}
-		if must {
-			m.violation("state-differs", "%s: %s = %s, twin %s", desc, k, gp[k], gt[k])
-		}
-		if !isErr(gp[k]) {
-			m.violation("wrong-state-below-floor", "%s: %s = %s but the unpruned twin says %s (must be refused or exact)", desc, k, gp[k], gt[k])
+		gt := readState(m.u, rtw, sc)
+		for _, k := range sortedKeys(gt) {
+			if gp[k] == gt[k] {
+				continue
+			}
+			if must {
+				m.violation("state-differs", "%s: %s = %s, twin %s", desc, k, gp[k], gt[k])
+			}
+			if !isErr(gp[k]) {
+				m.violation("wrong-state-below-floor", "%s: %s = %s but the unpruned twin says %s (must be refused or exact)", desc, k, gp[k], gt[k])
+			}
 		}
 	}
 	if must {
@@ -872,9 +932,19 @@ func (m *machine) compareStateView(where string, s *session, v view, must bool, 
 		} else {
 			st = m.ch.Blocks[v.num].Post
 		}
-		for k, want := range refState(m.u, st) {
-			if gp[k] != want {
-				m.violation("state-differs-from-model", "%s: %s = %s, abstract state %s", desc, k, gp[k], want)
+		want := refState(m.u, st, sc)
+		for _, k := range sortedKeys(want) {
+			if gp[k] != want[k] {
+				m.violation("state-differs-from-model", "%s: %s = %s, abstract state %s", desc, k, gp[k], want[k])
+			}
+		}
+		// contracts that do not exist in the abstract state: not found, or zero storage (tolerance of C03)
+		for _, k := range sortedKeys(gp) {
+			if _, ok := want[k]; ok || strings.HasPrefix(k, "class/") || strings.HasPrefix(k, "casm/") {
+				continue
+			}
+			if x := gp[k]; x != "!notfound" && !(strings.HasPrefix(k, "storage/") && x == "0x0") {
+				m.violation("state-of-missing-contract", "%s: %s = %s for a contract that does not exist in the abstract state", desc, k, x)
 			}
 		}
 	} else {
@@ -964,41 +1034,42 @@ func (m *machine) checkNode(where string, s *session, f uint64, light bool) {
 	head := m.head()
 	o := obsPair{p: s.n.Observe(m.ids), t: m.twinObs()}
 	m.compareObs(where, o, f)
-	// state views: head, floor-1, floor, drawn retained blocks, drawn pruned blocks
-	views := []struct {
+	// state views: head state; floor-1 (by number and by hash) and floor; drawn retained and pruned blocks
+	type vm struct {
 		v    view
 		must bool
-	}{{view{by: "head"}, true}}
-	addNum := func(n uint64, must bool) {
-		views = append(views, struct {
-			v    view
-			must bool
-		}{view{num: n, by: "num"}, must}, struct {
-			v    view
-			must bool
-		}{view{num: n, by: "hash"}, must})
 	}
+	views := []vm{{view{by: "head"}, true}}
+	num := func(n uint64, must bool) { views = append(views, vm{view{num: n, by: "num"}, must}) }
+	hash := func(n uint64, must bool) { views = append(views, vm{view{num: n, by: "hash"}, must}) }
 	if head >= f {
-		addNum(head, true)
 		if f > 0 && f-1 <= head {
-			addNum(f-1, true)
-			if m.noParentMapping {
-				views[len(views)-1].must = false // the by-hash view of floor-1
-			}
+			num(f-1, true)
+			hash(f-1, !m.noParentMapping)
 		}
 		if f < head {
-			addNum(f, true)
+			num(f, true)
 		}
-		if !light && head > f+1 {
-			addNum(f+1+uint64(gen.Uniform(m.rt, int(head-f-1), "stateBlock")), true)
+		if !light {
+			num(head, true)
+			hash(head, true)
+			hash(f, true)
+			if head > f+1 {
+				d := f + 1 + uint64(gen.Uniform(m.rt, int(head-f-1), "stateBlock"))
+				num(d, true)
+				hash(d, true)
+			}
 		}
 	} else if f > 0 && f-1 == head {
-		addNum(head, true)
+		num(head, true)
+		hash(head, !m.noParentMapping)
 	}
 	if f >= 2 {
-		addNum(uint64(gen.Uniform(m.rt, int(f-1), "prunedStateBlock")), false)
+		d := uint64(gen.Uniform(m.rt, int(f-1), "prunedStateBlock"))
+		num(d, false)
+		hash(d, false)
 		if !light && f >= 3 {
-			addNum(f-2, false)
+			num(f-2, false)
 		}
 	}
 	for _, v := range views {
@@ -1046,7 +1117,7 @@ func (m *machine) summary(s *session) node.Obs {
 			o["state/"+tag] = errStr(err)
 			return
 		}
-		for k, x := range readState(m.u, r) {
+		for k, x := range readState(m.u, r, m.fixedScope()) {
 			o["state/"+tag+"/"+k] = x
 		}
 	}
@@ -1310,7 +1381,7 @@ func runCase(t *testing.T, rt *rapid.T, c *stats.Case) {
 	m := &machine{t: t, rt: rt, c: c, cf: cf, u: u,
 		ch:        gen.NewChain(u, gen.Opts{MaxTxs: 2, MaxEvents: 2, DenseEvents: true, MinVersionIdx: rapid.IntRange(0, 3).Draw(rt, "minver")}),
 		ids:       &node.Ids{NoState: true},
-		numOfHash: map[felt.Felt]uint64{}, numOfTx: map[felt.Felt]uint64{}, numOfMsg: map[string]uint64{},
+		writtenSet: map[pair]bool{}, numOfHash: map[felt.Felt]uint64{}, numOfTx: map[felt.Felt]uint64{}, numOfMsg: map[string]uint64{},
 	}
 	c.Fp("%s", cf)
 	c.Labelf("backend-%s", map[bool]string{false: "legacy", true: "trie2"}[cf.newState])
@@ -1327,7 +1398,7 @@ func runCase(t *testing.T, rt *rapid.T, c *stats.Case) {
 	c.Labelf("clock-offset-%s", offset)
 	m.logf("config %s; clock offset %s", cf, offset)
 
-	m.twin = node.New(cf.newState, nil, u.Net)
+	m.twin = node.New(cf.newState, newFdb(memory.New()), u.Net) // same wrapper (cheap batch reads), no fault hooks
 	defer func() {
 		for _, s := range m.all {
 			s.stop()
